@@ -55,6 +55,14 @@ class _Canon:
         if depth > 8:
             return ast.unparse(e)
         base, ks = keys_chain(e)
+        if base is not None and base != "config" and ks:
+            # a local that aliases a section of the configuration:  tis_set = config["simulation"]["tis_set"]
+            if not hasattr(self, "_env"):
+                from .shared import _cfg_env
+                self._env = _cfg_env(self.f)
+            if base in self._env:
+                ks = list(self._env[base]) + ks
+                base = "config"
         if base == "config" and ks:
             key = "".join(f"[{k!r}]" for k in ks if not k.startswith("."))
             if key in SYMS:
